@@ -143,7 +143,7 @@ impl Walrus {
                         off,
                         block.used
                     );
-                    BlockStateTracker::set_checkpointed_true(block.id as usize);
+                    BlockStateTracker::set_checkpointed_true(block.id as usize, &block.file_path);
                     info.cur_block_idx += 1;
                     info.cur_block_offset = 0;
                     continue;
@@ -203,7 +203,7 @@ impl Walrus {
                             .read((block.offset + off) as usize, &mut len_probe);
                         let meta_len = (len_probe[0] as usize) | ((len_probe[1] as usize) << 8);
                         if meta_len == 0 || meta_len > PREFIX_META_SIZE - 2 {
-                            BlockStateTracker::set_checkpointed_true(block.id as usize);
+                            BlockStateTracker::set_checkpointed_true(block.id as usize, &block.file_path);
                             info.cur_block_idx += 1;
                             info.cur_block_offset = 0;
                             continue;
@@ -733,7 +733,7 @@ impl Walrus {
             let block = chain[cur_idx].clone();
             if cur_off >= block.used {
                 if info_guard.is_some() {
-                    BlockStateTracker::set_checkpointed_true(block.id as usize);
+                    BlockStateTracker::set_checkpointed_true(block.id as usize, &block.file_path);
                 }
                 cur_idx += 1;
                 cur_off = 0;
@@ -754,7 +754,7 @@ impl Walrus {
                 let probe_len = (len_probe[0] as usize) | ((len_probe[1] as usize) << 8);
                 if probe_len == 0 || probe_len > PREFIX_META_SIZE - 2 {
                     if info_guard.is_some() {
-                        BlockStateTracker::set_checkpointed_true(block.id as usize);
+                        BlockStateTracker::set_checkpointed_true(block.id as usize, &block.file_path);
                     }
                     cur_idx += 1;
                     cur_off = 0;
